@@ -29,6 +29,10 @@ func (g *fastGenerator) genUnmarshalMethod() {
 	g.P("}")
 	g.P("options := ", runtimePackage.Ident("UnmarshalInputToOptions"), "(input)")
 	g.P("_ = options")
+	// the output flags below repeat input.Flags; the only output flag,
+	// UnmarshalInitialized, has the bit of the input flag UnmarshalDiscardUnknown,
+	// and this method does not check required fields: never claim it
+	g.P("input.Flags = 0")
 	g.P("dAtA := input.Buf")
 	// body
 	if required.Len() > 0 {
